@@ -550,6 +550,11 @@ def q5(e: Engine, rep: Report):
                     up = unpacked(v, w.frame)
                     if up is not None and len(up) == 1:
                         v = up[0][0]
+                if isinstance(v, ast.Name):
+                    # remaining = self.queued[n:]; self.queued = remaining
+                    v2, f2 = common.origin(g, v, w.frame)
+                    if v2 is not v and f2 is w.frame:
+                        v = v2
                 if upper is None:
                     ok = isinstance(v, ast.List) and not v.elts
                     what = 'the whole list was taken: the timetable is ' \
